@@ -17,7 +17,7 @@ for pid in props:
     bounds = "; ".join(f"{k}: {v}" for k, v in s.get("bounds", {}).items())
     note = "Bounds: " + bounds + ". Stubs/assumptions: " + ("; ".join(s.get("stubs", [])) or "none") + \
         ". Outside the claim: " + ("; ".join(s.get("outside", [])) or "nothing beyond the bounds") + \
-        ". Trusted: gosym engine (/verif/engine), z3 4.8.12, Go semantics as modelled in DESIGN.md §2."
+        ". Trusted: gosym engine (/verif/engine), z3 5.1.0 (z3-new; z3 4.8.12 and cvc5 1.0 re-decide a query it leaves unknown), Go semantics as modelled in DESIGN.md §2."
     checks.append({
         "property_id": pid,
         "quick_cmd": f"./check.sh {pid} quick",
